@@ -1,5 +1,5 @@
 import enum
-from typing import Union
+from typing import Optional, Union
 
 from bitarray import bitarray
 from bitarray.util import int2ba, ba2int
@@ -55,7 +55,7 @@ class Rate1Data(BitsInterface):
         data: Union[bytes, bitarray],
         packet_type: Rate1DataTypes = Rate1DataTypes.Undefined,
         dbsn: Union[int, bitarray] = 0,
-        crc9: Union[int, bitarray] = 0,
+        crc9: Optional[Union[int, bitarray]] = None,
         crc32: Union[int, bytes] = 0,
     ):
         self.data: bytes = data if isinstance(data, bytes) else bits_to_bytes(data)
@@ -66,10 +66,11 @@ class Rate1Data(BitsInterface):
             crc32 if isinstance(crc32, int) else int.from_bytes(crc32, byteorder="big")
         )
 
-        self.crc9: int = crc9 if isinstance(crc9, int) else ba2int(crc9[::-1])
         calculated_crc9 = self.calculate_crc9()
-        if self.crc9 <= 0:
-            self.crc9 = calculated_crc9
+        if crc9 is None:
+            # generate crc9 if not provided
+            crc9 = calculated_crc9
+        self.crc9: int = crc9 if isinstance(crc9, int) else ba2int(crc9[::-1])
         self.crc9_ok: bool = self.crc9 == calculated_crc9
 
     @staticmethod
